@@ -3,7 +3,7 @@
    split_at / next / len of the two producers are the definitions GENERATED from src/utils.rs (Gen/Grid.v). *)
 From Coq Require Import String.
 From Coq Require Import List Arith Bool Lia Reals.
-From SpdVerif Require Import Base.GridOps Gen.Grid Model.Grid Model.Producer Proofs.C15_generic Proofs.C15_inst Model.C15_Float Proofs.C15_float Gen.C15_Reductions Proofs.C15_sites Model.C15_Bridge Proofs.C15_bridge Gen.C15_ParSites Proofs.C15_parsites Gen.Ranges Proofs.C14_ranges.
+From SpdVerif Require Import Base.GridOps Gen.Grid Model.Grid Model.Producer Proofs.C15_generic Proofs.C15_inst Model.C15_Float Proofs.C15_float Gen.C15_Reductions Proofs.C15_sites Model.C15_Bridge Proofs.C15_bridge Gen.C15_ParSites Proofs.C15_parsites Gen.Ranges Proofs.C14_ranges Model.C15_Zip Proofs.C15_exact.
 Import ListNotations.
 
 (* 1. 2-D grids: every split tree delivers the same points in the same positions — for EVERY carrier, hence bit-exactly *)
@@ -46,6 +46,29 @@ Theorem C15_len :
      exists ls, leaves (prod1d Rops) t (root1d s e n) = Ok ls /\
        Forall (fun q => p_len (prod1d Rops) q = length (p_items (prod1d Rops) q)) ls).
 Proof. exact (conj (@leaves2d_len) leaves1d_len). Qed.
+
+(* 3'. the exact-size contract AT ANY TIME (after /repo a05fe3f; finding F24 fixed): after EVERY schedule of next()/next_back() calls
+   on a fresh iterator, len() (generated it1d_len / it2d_len) is the number of items the iterator still yields; consequently std's
+   Zip::next_back — reached through rayon's enumerate().rev() — never hits unreachable!() and pairs every position with its own
+   point (transcription of Zip::next_back in Model/C15_Zip.v, over the generated next_back and len) *)
+Theorem C15_exact_size : forall T (O : ops T),
+  (forall (s e : T) n sched,
+     let st := sched_state (it1d_nxt O s e n) (it1d_bck O s e n) sched (it1d_new n) in
+     it1d_len n (fst st) (snd st) = length (drain (it1d_nxt O s e n) (S n) st)) /\
+  (forall x0 x1 nx y0 y1 ny sched,
+     let part := fst (it2d_new nx ny) in
+     let st := sched_state (it2d_nxt O x0 x1 nx y0 y1 ny part) (it2d_bck O x0 x1 nx y0 y1 ny part) sched (snd (it2d_new nx ny)) in
+     it2d_len (fst part) (snd part) (fst st) (snd st) = length (drain (it2d_nxt O x0 x1 nx y0 y1 ny part) (S (nx * ny)) st)) /\
+  (forall (s e : T) n offset,
+     zip_rev_collect (fun st => it1d_next_back O s e n (fst st) (snd st)) (fun st => it1d_len n (fst st) (snd st)) (S n) ((offset, offset + n), it1d_new n) =
+     Ok (map (fun k => (offset + n - 1 - k, steps_value O s e n (n - 1 - k))) (seq 0 n))) /\
+  (forall x0 x1 nx y0 y1 ny offset,
+     zip_rev_collect (fun st => it2d_next_back O x0 x1 nx y0 y1 ny 0 (nx * ny) (fst st) (snd st)) (fun st => it2d_len 0 (nx * ny) (fst st) (snd st)) (S (nx * ny))
+       ((offset, offset + nx * ny), (0, nx * ny)) =
+     Ok (map (fun k => (offset + nx * ny - 1 - k, steps2d_value O x0 x1 nx y0 y1 ny (nx * ny - 1 - k))) (seq 0 (nx * ny)))).
+Proof.
+  exact (fun T O => conj (it1d_len_any_time O) (conj (it2d_len_any_time O) (conj (enumerate_rev_1d O) (enumerate_rev_2d O)))).
+Qed.
 
 (* IndexedParallelIterator::len of the two parallel iterators (the length bridge() hands to the consumer) is the sequential length *)
 Theorem C15_par_len : forall T (O : ops T),
@@ -185,6 +208,10 @@ Theorem C15_split_at_zero_1d : forall T (O : ops T) p, p_split (prod1d O) p 0 = 
 Proof. exact (@split1d_zero). Qed.
 
 (* non-vacuity *)
+Example C15_exact_size_example :
+  zip_rev_collect (fun st => it1d_next_back Rops 0%R 4%R 5 (fst st) (snd st)) (fun st => it1d_len 5 (fst st) (snd st)) 6 ((0, 5), it1d_new 5) =
+  Ok (map (fun k => (0 + 5 - 1 - k, steps_value Rops 0%R 4%R 5 (5 - 1 - k))) (seq 0 5)).
+Proof. exact (enumerate_rev_1d Rops 0%R 4%R 5 0). Qed.
 Example C15_nonvacuous_tree : admissible 1 (Node 2 (Node 1 Leaf Leaf) (Node 3 Leaf Leaf)) 5 /\ bridge_shaped (Node 2 (Node 1 Leaf Leaf) (Node 1 Leaf Leaf)) 5.
 Proof. cbn. repeat split; lia. Qed.
 
@@ -194,6 +221,7 @@ Print Assumptions C15_1d_count_exact.
 Print Assumptions C15_1d_float_bound_partial.
 Print Assumptions C15_1d_float_bound_numbers.
 Print Assumptions C15_len.
+Print Assumptions C15_exact_size.
 Print Assumptions C15_par_len.
 Print Assumptions C15_enumerate.
 Print Assumptions C15_collect.
